@@ -127,7 +127,7 @@ def extract_stage(ctx, sliced, fired):
            (r'\bmy_pipeline\.', 'my_pipeline->', 0),                                       # reference member -> pointer member
            (r'm_allocator = alloc;', 'm_allocator = *alloc;', 0),                          # reference parameter copied into the member
            (r'task_info::reset\(\);', 'task_info_reset(&base);', 0),
-           (r'(?<![\w.>])(my_object|my_token_ready|my_token)\b', r'base.\1', 0),             # members inherited from task_info
+           (r'(?<![\w.>])(my_object|my_token_ready|my_token|is_valid)\b', r'base.\1', 0),             # members inherited from task_info
            (r'd1::small_object_allocator alloc\{\};', 'small_object_allocator alloc = {0};', 0),
            (r'd1::base_filter\*', 'struct base_filter*', 0),
            (r'alloc\.new_object<stage_task>\(\s*ed,\s*([^,();]+),\s*alloc\s*\)', r'NEW_input_stage_task(ed, \1, &alloc)', 0),
